@@ -78,6 +78,13 @@ def gen(rng, tier):
                     continue
                 cases.append({"op": "c17_load", "input": [m, ly, f, G.apply_fault(lines, f), "plain"],
                               "stream": "fault/" + cls})
+        else:
+            # one number respelled (same value, another of the spellings <f64 as FromStr> accepts): still meaning M
+            for _ in range(2):
+                f = G.gen_restyle(rng, lines)
+                if f is not None:
+                    cases.append({"op": "c17_load", "input": [m, ly, f, G.apply_fault(lines, f), "plain"],
+                                  "stream": "restyle"})
     return cases
 
 
